@@ -19,7 +19,7 @@ import subprocess
 import sys
 
 import asyncssh
-from asyncssh.config import SSHClientConfig, SSHServerConfig
+from asyncssh.config import SSHClientConfig, SSHServerConfig, ConfigParseError
 
 from harness.drivers.trust_files import records, S          # noqa: F401
 
@@ -599,6 +599,70 @@ def ssh_agrees(sshout, expected, ukh_set, names=()):
                 continue
             ok = ok and got == want
     return ok
+
+
+# --------------------------------------------------------------------------
+# lexical layer
+# --------------------------------------------------------------------------
+
+LEX_KW = {'one': 'HostKeyAlias', 'list': 'SendEnv', 'rest': 'RemoteCommand',
+          'host': 'Host'}
+LEX_TARGETS = ('x', 'x#x')
+
+
+def lex_text(kind, chars, variant):
+    """The file for one lexical case: leading blanks / tabs, LF or CRLF line
+    ends and trailing blanks vary with `variant` (none of them matters)."""
+    lead = ('', '  ', '\t')[variant % 3]
+    trail = ('', ' ', '\t ')[(variant // 3) % 3]
+    eol = ('\n', '\r\n')[(variant // 9) % 2]
+    arg = ''.join(chars)
+    text = lead + LEX_KW[kind] + arg + trail + eol
+    if kind == 'host':
+        text += '  Port 2201' + eol
+    return text
+
+
+def lex_load(world, kind, text, target='x'):
+    """-> ('err',) | ('ok', value) ; value: str, list, or matched flag"""
+    world._put(world.main, text)            # pylint: disable=protected-access
+    world.current = None
+    world.x = ''
+    try:
+        c = SSHClientConfig.load(None, [world.main], False, False, False,
+                                 LOCAL_USER, (), target, ())
+    except ConfigParseError:
+        return ('err',)
+    except Exception as exc:            # pylint: disable=broad-except
+        return ('exc', type(exc).__name__, str(exc)[:120])
+    if kind == 'host':
+        return ('ok', c.get('Port') == 2201)
+    return ('ok', c.get(LEX_KW[kind]))
+
+
+def lex_ssh(world, kind, text, target='x'):
+    """The same line according to ssh -G (None: no answer)."""
+    world._put(world.main, text)            # pylint: disable=protected-access
+    world.current = None
+    try:
+        p = subprocess.run(['ssh', '-G', '-F', world.main, target],
+                           stdout=subprocess.PIPE, stderr=subprocess.PIPE,
+                           timeout=20, env=dict(os.environ, **ENV))
+    except (OSError, subprocess.TimeoutExpired):
+        return None
+    if p.returncode != 0:
+        return ('err',)
+    vals = {}
+    for line in p.stdout.decode().splitlines():
+        k, _, v = line.partition(' ')
+        vals.setdefault(k, []).append(v)
+    if kind == 'host':
+        return ('ok', vals.get('port') == ['2201'])
+    if kind == 'one':
+        return ('ok', vals.get('hostkeyalias', [None])[0])
+    if kind == 'list':
+        return ('ok', vals.get('sendenv'))
+    return ('ok', vals.get('remotecommand', [None])[0])
 
 
 # --------------------------------------------------------------------------
